@@ -48,7 +48,7 @@ struct tm* __real_localtime(const time_t*);
 #define ARENA_SIZE (320u << 20)
 #define MAXFILES 4096
 #define HASHSZ 16384
-#define MAXEV 400000
+#define MAXEV 1500000
 #define PATHMAX 240
 
 typedef struct {
@@ -426,6 +426,7 @@ FILE* __wrap_fopen(const char* path, const char* mode) {
     char np[PATHMAX];
     normpath(path, np, sizeof np);
     int    fi = find_file(np), cls = classify(np);
+    if (fi < 0 && A->nfiles < MAXFILES - 8) fi = add_file(np); /* give failed opens a name in the log too */
     Fault* ft = match_fault(EV_OPEN, cls, np);
     if (ft && ft->action == ACT_ERRNO) {
         log_ev(EV_OPEN, fi < 0 ? 0xffff : fi, 0, 0, -ft->arg, 1, (uint32_t)mode[0]);
@@ -735,7 +736,7 @@ static void     reply(int fout, int kind, int code) {
     for (uint32_t i = A->npersist; i < A->nfiles; i++) {
         SFile* f = &A->files[i];
         cnt++;
-        total += 4 + strlen(f->path) + 8 + (f->exists ? f->len : 0);
+        total += 4 + strlen(f->path) + 12 + (f->exists ? f->len : 0);
     }
     uint32_t nev = want_events ? A->nev : 0;
     total += (size_t)nev * sizeof(Ev);
@@ -776,6 +777,8 @@ static void     reply(int fout, int kind, int code) {
         memcpy(q, &ex, 4);
         q += 4;
         memcpy(q, &l, 4);
+        q += 4;
+        memcpy(q, &i, 4);
         q += 4;
         if (l) memcpy(q, A->data + f->off, l);
         q += l;
